@@ -1082,5 +1082,55 @@ Section Proofs.
             -- intros k row Hin. apply (known_In keqb_spec). eauto.
             -- exists k1, r1, k2, r2. auto.
     Qed.
+
+    (* ---------------- arbitrary sequences of direct calls ---------------- *)
+    Lemma run_calls_spec (ids : list K) calls : forall (m : pmat A) acc log,
+      mat_ok ids m (pilot_spec acc) -> beyond_zero (pilot_spec acc) (wid m) ->
+      match run_calls keqb zero ids m calls acc log with
+      | (m', acc', log') =>
+          mat_ok ids m' (pilot_spec acc') /\ beyond_zero (pilot_spec acc') (wid m') /\
+          wid m <= wid m' /\ length log' = length log + length calls
+      end.
+    Proof.
+      induction calls as [|c calls IH]; intros m acc log Hm Hb.
+      - simpl. repeat split; auto; lia.
+      - destruct c as [last it s|t]; simpl.
+        + destruct (update_schedules ids last it m s) as [m1|e m1] eqn:E.
+          * destruct (update_spec ids last it m m1 s acc Hm Hb E) as [Hm1 [Hb1 Hw1]].
+            specialize (IH m1 ((it, s) :: acc) (None :: log) Hm1 Hb1).
+            destruct (run_calls keqb zero ids m1 calls ((it, s) :: acc) (None :: log)) as [[m' acc'] log'].
+            destruct IH as [? [? [? Hl]]]. simpl in Hl. repeat split; auto; lia.
+          * pose proof (classify_thm ids last it m s (mat_ok_wfm _ _ _ Hm)) as Hc.
+            rewrite E in Hc. destruct Hc as [-> _].
+            specialize (IH m acc (Some e :: log) Hm Hb).
+            destruct (run_calls keqb zero ids m calls acc (Some e :: log)) as [[m' acc'] log'].
+            destruct IH as [? [? [? Hl]]]. simpl in Hl. repeat split; auto; lia.
+        + destruct (increase_width_mat_ok ids m _ t Hm Hb) as [Hm1 Hb1].
+          specialize (IH (increase_width m t) acc (None :: log) Hm1 Hb1).
+          destruct (run_calls keqb zero ids (increase_width m t) calls acc (None :: log)) as [[m' acc'] log'].
+          destruct IH as [? [? [Hw Hl]]]. simpl in Hl. rewrite increase_width_wid in Hw.
+          repeat split; auto; lia.
+    Qed.
+
+    Theorem calls_overlay_thm (ids : list K) (w0 : nat) (calls : list (call K A)) :
+      match run_calls keqb zero ids (zero_mat zero ids w0) calls [] [] with
+      | (m, acc, log) =>
+          length (rows m) = length ids /\
+          (forall s k, nth_error ids s = Some k ->
+             exists row, nth_error (rows m) s = Some row /\ length row = wid m /\
+               forall t, t < wid m -> nth t row zero = pilot_spec acc k t) /\
+          (forall k t, wid m <= t -> pilot_spec acc k t = zero) /\
+          length log = length calls
+      end.
+    Proof.
+      assert (Hm : mat_ok ids (zero_mat zero ids w0) (pilot_spec [])).
+      { unfold mat_ok, zero_mat. simpl. induction ids as [|k ids' IH]; simpl; constructor; auto.
+        split; [apply repeat_length|]. intros. apply nth_repeat_same. }
+      assert (Hb : beyond_zero (pilot_spec []) (wid (zero_mat zero ids w0))) by (intros k t _; reflexivity).
+      pose proof (run_calls_spec ids calls _ [] [] Hm Hb) as H.
+      destruct (run_calls keqb zero ids (zero_mat zero ids w0) calls [] []) as [[m acc] log].
+      destruct H as [Hm' [Hb' [_ Hl]]].
+      destruct (mat_ok_rows _ _ _ Hm') as [Hlen Hrows]. simpl in Hl. repeat split; auto.
+    Qed.
   End Final.
 End Proofs.
